@@ -110,6 +110,27 @@ let run_gen ~(xmode : bool) (path : string) =
         if not (holds_C12_wasm v c s accepted changed) then
           predfail ~case:id ~step:1 ~pred:"holds_C12_wasm" ~kf:"none"
             ~detail:(Printf.sprintf "%s_%s_%s_accepted=%s_changed=%s" variant chain sender (tok_of_bool accepted) (tok_of_bool changed))
+      | "case" :: id :: "wasmx" :: variant :: chain :: sender :: accepted :: cls :: changed :: dirty :: real :: [] ->
+        (* custom messages with payloads that have an effect on the extended state: the sender guard as above, and
+           a message the ladder rejects leaves no trace even on the (uncommitted) branch it ran on *)
+        incr cases; incr steps;
+        let accepted = bool_of_tok accepted and changed = bool_of_tok changed and dirty = bool_of_tok dirty in
+        bump ("wasmx:" ^ chain ^ ":" ^ (if accepted then "accepted" else "rejected") ^ ":" ^ cls ^ (if changed then ":effect" else ":no-effect"));
+        Hashtbl.replace distinct (Digest.string ("x" ^ variant ^ chain ^ sender)) ();
+        let v = coq_of_string variant and c = coq_of_string chain and sd = coq_of_string sender in
+        (match wasm_model_accepts v c sd with
+         | None -> mismatch ~case:id ~step:1 ~field:("wasm-row:" ^ variant) ~model:"absent" ~impl:"present"
+         | Some m ->
+           if m <> accepted then
+             mismatch ~case:id ~step:1 ~field:("wasm-ladder:" ^ variant ^ ":" ^ chain) ~model:(tok_of_bool m) ~impl:(tok_of_bool accepted);
+           if (not m) && dirty then
+             mismatch ~case:id ~step:1 ~field:("wasm-ladder-before-writes:" ^ variant ^ ":" ^ chain) ~model:"branch-untouched" ~impl:"written";
+           if not m then incr nontrivial);
+        if accepted && cls = "ok" && changed && real = "1" then Hashtbl.replace changed_ok_seen ("wasm:" ^ variant) ();
+        Hashtbl.replace exercised ("wasm:" ^ variant) ();
+        if not (holds_C12_wasm v c sd accepted changed) then
+          predfail ~case:id ~step:1 ~pred:"holds_C12_wasm" ~kf:"none"
+            ~detail:(Printf.sprintf "%s_%s_%s_accepted=%s_changed=%s_with-effect-payload" variant chain sender (tok_of_bool accepted) (tok_of_bool changed))
       | "case" :: id :: "kill" :: is_admin :: enable :: cls :: kind :: changed :: [] ->
         incr cases; incr steps;
         let is_admin = bool_of_tok is_admin and ok = (cls = "ok") and changed = bool_of_tok changed in
@@ -164,7 +185,15 @@ let run_gen ~(xmode : bool) (path : string) =
           mismatch ~case:"-" ~step:0 ~field:("coverage-ok-with-effect:" ^ n) ~model:"named-owner-succeeds-and-state-changes" ~impl:"never"
         else if not (Hashtbl.mem other_owner_seen n && Hashtbl.mem other_signer_seen n) then
           mismatch ~case:"-" ~step:0 ~field:("coverage-other-signer:" ^ n) ~model:"signed-by-another-owner-and-a-stranger" ~impl:"never")
-      x_matrix_handlers
+      x_matrix_handlers;
+    (* every custom message variant of the regenerated table was sent with a payload whose accepted run changes state *)
+    L.iter (fun vn ->
+        let n = "wasm:" ^ string_of_coq vn in
+        if not (Hashtbl.mem exercised n) then
+          mismatch ~case:"-" ~step:0 ~field:("coverage:" ^ n) ~model:"custom-message-variant-with-effect-payload" ~impl:"not-sent"
+        else if not (Hashtbl.mem changed_ok_seen n) then
+          mismatch ~case:"-" ~step:0 ~field:("coverage-effect:" ^ n) ~model:"accepted-run-changes-state" ~impl:"never")
+      wasm_variant_names
   end;
   finish ~cases:!cases ~steps:!steps ~nontrivial:!nontrivial
 
